@@ -1,7 +1,7 @@
 """C13 Client faults are contained; teardown happens once, on the I/O thread only."""
 import errno
 
-from harness import common, hsys, C04
+from harness import common, hsys, C04, C03
 from wsx.core import E
 
 PROPERTY = "C13"
@@ -18,9 +18,11 @@ STUBS = C04.STUBS
 
 
 def BOUNDS(tier):
-    return ("two connections (the faulted one and a bystander) each sending one or two GET requests; a symbolic fault variable on every accept / "
+    return ("two connections (the faulted one and a bystander), the faulted one sending one or two GET requests (two: %s); a symbolic fault variable on every accept / "
             "getsockopt / setsockopt / setblocking / recv / send call of the first connection (errno from 6 values) or EOF, at most %d fault(s); "
-            "every interleaving with at most %d pre-emption(s)." % ((1, 1) if tier == "quick" else (2, 1)))
+            "every interleaving with at most %d pre-emption(s); body 2 / 3000 bytes in two writes, outbuf_high_watermark default / 10 (then optionally "
+            "followed by a 40-byte file through wsgi.file_wrapper, single-request case), log_socket_errors on / off, first send stalled or not."
+            % (("errno EPIPE, EINVAL or EOF", 1, 1) if tier == "quick" else ("all six errno values or EOF", 2, 1)))
 
 
 def jobs(tier):
@@ -30,16 +32,22 @@ def jobs(tier):
             js.append(dict(name="F:%s:r%d" % (errno.errorcode[err], nreq), err=err, nreq=nreq,
                            k=2 if (tier == "thorough" and nreq == 1 and err in (errno.ECONNRESET, errno.EINVAL)) else 1, P=1))
         js.append(dict(name="EOF:r%d" % nreq, err=None, nreq=nreq, k=1, P=1))
-    js = common.shard(js, "body", 2, lambda j: j["nreq"] == 2 or j["k"] == 2)
-    js = common.shard(js, "wm", 2, lambda j: j["nreq"] == 2 or j["k"] == 2)
+    if tier == "quick":
+        # two pipelined requests on the faulted connection: one errno of the "peer is gone" class and one other (all six in thorough)
+        js = [j for j in js if j["nreq"] == 1 or j["err"] in (None, errno.EPIPE, errno.EINVAL)]
+    js = common.shard(js, "body", 2, lambda j: j["err"] is not None)
+    js = common.shard(js, "wm", 2, lambda j: j["err"] is not None)
     return js
 
 
 def make_inputs(job):
     # the fault placement is chosen while the scenario runs (one free choice per socket call); it is reported in the observation
     eng = E()
-    return dict(err=job["err"], nreq=job["nreq"], k=job["k"], P=job["P"], body=(2, 3000)[eng.choose(2, "body")],
-                wm=(16777216, 10)[eng.choose(2, "wm")], logsock=bool(eng.choose(2, "logsock")), stall_first=bool(eng.choose(2, "stall")))
+    inp = dict(err=job["err"], nreq=job["nreq"], k=job["k"], P=job["P"], body=(2, 3000)[eng.choose(2, "body")],
+               wm=(16777216, 10)[eng.choose(2, "wm")], logsock=bool(eng.choose(2, "logsock")), stall_first=bool(eng.choose(2, "stall")))
+    # with a small watermark the response may end in a file handed over through wsgi.file_wrapper (a buffer that has to be released)
+    inp["tail"] = bool(eng.choose(2, "tail")) if inp["wm"] == 10 and job["nreq"] == 1 else False
+    return inp
 
 
 def scenario(ns, inp):
@@ -47,12 +55,19 @@ def scenario(ns, inp):
     placed = []
     budget = [inp["k"]]
 
+    files = []
+
     def app(environ, start_response):
         calls.append(environ["PATH_INFO"])
-        write = start_response("200 OK", [("Content-Length", str(inp["body"]))])
+        tail = inp.get("tail") and environ["PATH_INFO"].startswith("/a")
+        write = start_response("200 OK", [("Content-Length", str(inp["body"] + (40 if tail else 0)))])
         half = inp["body"] // 2
         write(b"x" * half)
         write(b"x" * (inp["body"] - half))
+        if tail:
+            f = C03._make_file(ns, b"f" * 40)
+            files.append(f)
+            return environ["wsgi.file_wrapper"](f, 16)
         return []
 
     def fault_hook(op, obj):
@@ -106,7 +121,8 @@ def scenario(ns, inp):
                    trigger_in_map=srv.trigger._fileno in sysm.map if srv.trigger._fileno is not None else False,
                    a_closed=a.closed, a_closed_by=list(a.closed_by), a_accepted=a not in [c for c, _ in sysm.listen.pending],
                    b_wire=bytes(b.wire()), b_closed=b.closed, spinning=sysm.s.spinning,
-                   channels=len(sysm.channels()), blocked=sorted(sysm.s.blocked()), a_wire_len=len(a.wire()))
+                   channels=len(sysm.channels()), blocked=sorted(sysm.s.blocked()), a_wire_len=len(a.wire()),
+                   fclose=[getattr(f, "close_calls", None) if getattr(f, "close_calls", None) is not None else int(bool(f.closed)) for f in files])
     finally:
         sysm.close()
     return obs
@@ -128,6 +144,9 @@ def oracle(inp, obs):
         # server and released when the socket object is collected; the simulated socket cannot observe that)
         out.append(("a connection whose recv / send failed (or whose peer vanished) is torn down exactly once and its descriptor released (faults %r)" % (obs["placed"],),
                     obs["a_closed"] == 1))
+    if obs["a_closed"] >= 1 and obs.get("fclose"):
+        out.append(("the buffers of a torn-down connection are released: every file handed over through wsgi.file_wrapper is closed (close calls %r)" % (obs["fclose"],),
+                    all(c >= 1 for c in obs["fclose"])))
     return out
 
 
